@@ -1,5 +1,8 @@
 /-
-Model of `guidedremediation/internal/vulns.IsAffected` (C18).
+Model of `guidedremediation/internal/vulns.IsAffected` (C18) — the code AFTER the repair "fix: IsAffected orders
+events on one version fixed, introduced, last_affected and looks at all of them on an exact hit". The decision
+procedure of the code before that repair is kept at the end (`evLtOld`, `codeDecisionOld`, `rangeDecisionOld`),
+clearly labelled, only so that `Properties/C18.lean` can record by `decide` on which inputs it was wrong.
 
 Version STRINGS are spelling ids; the ecosystem's order sees only their rank (two spellings of one rank —
 Maven `1.0` / `1.0.0`, npm `1.0.0` / `1.0.0+b1` — compare equal). Range events are compared, so they carry ranks;
@@ -8,8 +11,10 @@ Ranks: `0` is the literal string "0" (which the Go comparator
 and the binary-search callback both special-case as "below everything"), every real version has a
 rank ≥ 1, and `sys.Compare` is modelled as comparison of ranks (trusted: deps.dev `semver.Compare`
 is a total order on the version strings the harness uses; see DESIGN.md §3).
-`slices.SortFunc` = stable insertion sort (`Scalibr.isort`), `slices.BinarySearchFunc` = least index
-whose element is not below the target (`idxOf`), both by contract.
+`slices.SortFunc` = insertion sort (`Scalibr.isort`); since the repaired comparator separates any two different
+events (`evLt_sep` in Proofs/Vulns.lean) EVERY correct sort returns the same list (`C18_listing_order`), so the
+instability of Go's pdqsort above 12 elements is immaterial. `slices.BinarySearchFunc` = least index whose
+element is not below the target (`idxOf`), by contract.
 -/
 import Scalibr.Base.Sort
 namespace Scalibr.Vulns
@@ -46,24 +51,37 @@ structure Pkg where
   vid : Nat := version    -- spelling id of the package's version string
 deriving Repr
 
-/-- the comparator handed to `slices.SortFunc`, as a strict "less" on ranks -/
-def evLt (a b : Ev) : Bool := a.v < b.v
+/-- `eventOrder` of the Go code: on one version `fixed` sorts first, then `introduced`, then `last_affected` -/
+def eventOrder : Kind → Nat
+  | .fixed => 0
+  | .intro => 1
+  | .last => 2
+
+/-- the comparator handed to `slices.SortFunc`, as a strict "less": ranks first, `eventOrder` on equal ranks -/
+def evLt (a b : Ev) : Bool := a.v < b.v || (a.v == b.v && eventOrder a.k < eventOrder b.k)
 
 def sortEvents (es : List Ev) : List Ev := isort evLt es
 
-/-- `slices.BinarySearchFunc` on a sorted list: number of events strictly below the target -/
+/-- `slices.BinarySearchFunc` on a sorted list: number of events strictly below the target (the FIRST event of
+the target's version when there is one) -/
 def idxOf (es : List Ev) (q : Nat) : Nat := (es.takeWhile (fun e => e.v < q)).length
 
 def isIntro : Option Kind → Bool
   | some .intro => true
   | _ => false
 
+/-- `e.Introduced != "" || e.LastAffected != ""` -/
+def inclusive (e : Ev) : Bool := e.k = .intro || e.k = .last
+
+/-- the `for _, e := range events[idx:]` loop of an exact hit: every event on the queried version -/
+def exactScan (es : List Ev) (q : Nat) : Bool := (es.takeWhile (fun e => e.v = q)).any inclusive
+
 /-- the decision taken after the search, on the sorted events -/
 def codeDecision (es : List Ev) (q : Nat) : Bool :=
   let idx := idxOf es q
   match es[idx]? with
   | some e =>
-    if e.v = q then (e.k = .intro || e.k = .last)              -- exact hit
+    if e.v = q then exactScan (es.drop idx) q                   -- exact hit: all events of that version
     else (idx != 0 && isIntro ((es[idx-1]?).map (·.k)))         -- between events
   | none => (idx != 0 && isIntro ((es[idx-1]?).map (·.k)))
 
@@ -80,5 +98,22 @@ def isAffected (known : Nat → Bool) (vuln : List Affected) (p : Pkg) : Bool :=
     (a.eco = p.eco && a.name = p.name) &&
       (a.versions.contains p.vid ||
        a.ranges.any fun r => rangeApplies a r && rangeDecision r.events p.version)
+
+/-! ### the decision procedure BEFORE the repair (documentation of the defect only; nothing is proved about it
+except the two `decide`d witnesses `C18_old_*` in Properties/C18.lean) -/
+
+/-- old comparator: versions only, so events on one version stayed in listing order (stable sort below 12 events) -/
+def evLtOld (a b : Ev) : Bool := a.v < b.v
+
+/-- old decision: on an exact hit only the FIRST event of that version was looked at -/
+def codeDecisionOld (es : List Ev) (q : Nat) : Bool :=
+  let idx := idxOf es q
+  match es[idx]? with
+  | some e =>
+    if e.v = q then (e.k = .intro || e.k = .last)
+    else (idx != 0 && isIntro ((es[idx-1]?).map (·.k)))
+  | none => (idx != 0 && isIntro ((es[idx-1]?).map (·.k)))
+
+def rangeDecisionOld (es : List Ev) (q : Nat) : Bool := codeDecisionOld (isort evLtOld es) q
 
 end Scalibr.Vulns
